@@ -96,6 +96,15 @@ def evaluate(case):
                             smiles=case["smiles"][:300], selfies=rt.selfies[:300], out=rt.smiles_out[:300])
                 break
         if fail is None:
+            for i, j, a, b in t.get("marks_raw", []):
+                nontrivial = True
+                g = got.get((i, j))
+                if g is None or g[1] != (a, b):
+                    fail = Fail("mark_direction:ring_both_ends", bond=[i, j], want=[a, b], got=(None if g is None else [sorted(g[0]), g[1]]),
+                                smiles=case["smiles"][:300], selfies=rt.selfies[:300], out=rt.smiles_out[:300])
+                    break
+                want[(i, j)] = None
+        if fail is None:
             extra = [k for k in got if k not in want]
             if extra:
                 fail = Fail("mark_invented", bonds=extra[:4], smiles=case["smiles"][:300], out=rt.smiles_out[:300])
